@@ -44,6 +44,10 @@ func main() {
 		err = gateMode(num(2), int(num(3)), enc)
 	case "wire":
 		err = wireMode(num(2), enc)
+	case "dex": // dex <seed> <runs> <rounds> <small|big> <out>
+		err = dexMode(num(2), int(num(3)), int(num(4)), os.Args[5] == "big", enc)
+	case "swap": // swap <seed> <runs> <steps> <out>
+		err = swapMode(num(2), int(num(3)), int(num(4)), enc)
 	case "replay":
 		err = replayMode(num(2), int(num(3)), enc)
 	case "multi":
